@@ -9,6 +9,7 @@ import (
 	"os"
 	"os/exec"
 	"path/filepath"
+	"regexp"
 	"runtime"
 	"sort"
 	"strings"
@@ -34,13 +35,16 @@ type Driver struct {
 	Bin      string
 	Keys     []string          // packages linked in
 	Rejected map[string]string // key -> generator diagnostic
-	Race     bool
+	// ShimFailed: key -> first compiler diagnostic of a package that was generated but does not compile together
+	// with the harness shim (also entered in Rejected, so that callers skip it)
+	ShimFailed map[string]string
+	Race       bool
 }
 
 // Build generates every job, writes shims and links one driver binary.
 // The current directory must be inside mod (see genlab.EnterScratchModule).
 func Build(mod *genlab.Module, name string, jobs []SpecJob, race bool) (*Driver, error) {
-	d := &Driver{Mod: mod, Name: name, Rejected: map[string]string{}, Race: race}
+	d := &Driver{Mod: mod, Name: name, Rejected: map[string]string{}, ShimFailed: map[string]string{}, Race: race}
 	var mu sync.Mutex
 	var firstErr error
 	ev.Parallel(len(jobs), runtime.NumCPU(), func(i int) {
@@ -82,6 +86,44 @@ func Build(mod *genlab.Module, name string, jobs []SpecJob, race bool) (*Driver,
 		return d, firstErr
 	}
 	sort.Strings(d.Keys)
+	for attempt := 0; ; attempt++ {
+		err := d.link(mod, name, race)
+		if err == nil {
+			return d, nil
+		}
+		// packages whose shim (or generated code, which is C02's subject) does not compile are set aside and
+		// listed in ShimFailed; the rest of the batch is linked without them
+		bad := map[string]string{}
+		cur := ""
+		for _, line := range strings.Split(err.Error(), "\n") {
+			if m := pkgLine.FindStringSubmatch(line); m != nil {
+				cur = m[1]
+				continue
+			}
+			if cur != "" && bad[cur] == "" && strings.Contains(line, ".go:") {
+				bad[cur] = strings.TrimSpace(line)
+			}
+		}
+		if len(bad) == 0 || attempt >= 3 {
+			return d, err
+		}
+		var keep []string
+		for _, k := range d.Keys {
+			if why, ok := bad[k]; ok {
+				d.ShimFailed[k] = why
+				d.Rejected[k] = "harness: generated package with shim does not compile: " + why
+				fmt.Printf("NOTE package %s set aside: does not compile with the harness shim: %s\n", k, why)
+				continue
+			}
+			keep = append(keep, k)
+		}
+		d.Keys = keep
+	}
+}
+
+var pkgLine = regexp.MustCompile(`^# scratch/gen/([A-Za-z0-9_]+)`)
+
+func (d *Driver) link(mod *genlab.Module, name string, race bool) error {
 	var b bytes.Buffer
 	b.WriteString("package main\n\nimport (\n\t\"verifharness/servlab\"\n")
 	for _, k := range d.Keys {
@@ -93,7 +135,7 @@ func Build(mod *genlab.Module, name string, jobs []SpecJob, race bool) (*Driver,
 	}
 	b.WriteString("\tservlab.Main()\n}\n")
 	if _, err := mod.WritePackage(name, map[string][]byte{"main.go": b.Bytes()}); err != nil {
-		return d, err
+		return err
 	}
 	d.Bin = filepath.Join(mod.Dir, name+".bin")
 	args := []string{"build"}
@@ -103,9 +145,9 @@ func Build(mod *genlab.Module, name string, jobs []SpecJob, race bool) (*Driver,
 	args = append(args, "-o", d.Bin, "./"+name)
 	out, err := mod.Go(30*time.Minute, args...)
 	if err != nil {
-		return d, fmt.Errorf("driver %s does not compile: %v\n%s", name, err, tail(out, 6000))
+		return fmt.Errorf("driver %s does not compile: %v\n%s", name, err, tail(out, 20000))
 	}
-	return d, nil
+	return nil
 }
 
 type RunResult struct {
